@@ -11,6 +11,7 @@ import (
 	"fmt"
 	"math/rand"
 	"os"
+	"runtime"
 	"strconv"
 	"sync"
 	"sync/atomic"
@@ -225,6 +226,89 @@ func (w *cacheWorld) gated(pre []cacheCall, c1, c2 cacheCall, expect []string) {
 	w.quiesce(expect, fmt.Sprintf("gated %v || %v parked=%v overlapped=%v", c1, c2, parked, overlapped))
 }
 
+// gatedSeq parks c1 at every gate it passes; at the k-th park the calls of stages[k] are run one after the other
+// (they complete meanwhile only if nothing serialises them with c1), then c1 is released to its next gate.
+func (w *cacheWorld) gatedSeq(pre []cacheCall, c1 cacheCall, stages [][]cacheCall, expect []string) {
+	for _, c := range pre {
+		w.do(c)
+	}
+	parkedAt := make(chan chan struct{}, 8)
+	var ownerID atomic.Int64
+	cache.VerifGate = func(string) {
+		if ownerID.Load() != goid() {
+			return
+		}
+		rel := make(chan struct{})
+		parkedAt <- rel
+		<-rel
+	}
+	done1 := make(chan struct{})
+	go func() {
+		defer close(done1)
+		ownerID.Store(goid())
+		w.do(c1)
+	}()
+	var waits []chan struct{}
+	parks, overl := 0, 0
+	for k := 0; ; k++ {
+		var rel chan struct{}
+		select {
+		case rel = <-parkedAt:
+			parks++
+		case <-done1:
+		case <-time.After(5 * time.Second):
+		}
+		if rel == nil {
+			break
+		}
+		if k < len(stages) {
+			d := make(chan struct{})
+			var prev chan struct{}
+			if len(waits) > 0 {
+				prev = waits[len(waits)-1]
+			}
+			waits = append(waits, d)
+			st := stages[k]
+			go func() {
+				defer close(d)
+				if prev != nil {
+					<-prev // the stages keep their order also when c1 serialises everything behind itself
+				}
+				for _, c := range st {
+					w.do(c)
+				}
+			}()
+			select {
+			case <-d:
+				overl++
+			case <-time.After(150 * time.Millisecond):
+			}
+		}
+		close(rel)
+	}
+	<-done1
+	for _, d := range waits {
+		<-d
+	}
+	cache.VerifGate = nil
+	// stages that never got their turn (c1 passed fewer gates) are run now, in order
+	for k := parks; k < len(stages); k++ {
+		for _, c := range stages[k] {
+			w.do(c)
+		}
+	}
+	w.quiesce(expect, fmt.Sprintf("gated %v || %v parks=%d overlapped=%d", c1, stages, parks, overl))
+}
+
+// goid returns the id of the calling goroutine (from its stack header).
+func goid() int64 {
+	var buf [64]byte
+	n := runtime.Stack(buf[:], false)
+	var id int64
+	fmt.Sscanf(string(buf[:n]), "goroutine %d ", &id)
+	return id
+}
+
 // cacheMain: drive cache <trace.ndjson> <seed> <tier>
 func cacheMain(args []string) {
 	if len(args) != 3 {
@@ -277,6 +361,26 @@ func cacheMain(args []string) {
 	for _, gc := range cases {
 		w := newCacheWorld(enc, cacheAddrs, cachePairs)
 		w.gated(gc.pre, gc.c1, gc.c2, gc.expect)
+		total += w.events
+	}
+	// (ii-b) a read parked between its list read, its entry look-ups and its clean-up, with other calls in between
+	type scase struct {
+		pre    []cacheCall
+		c1     cacheCall
+		stages [][]cacheCall
+		expect []string
+	}
+	scases := []scase{
+		{[]cacheCall{sv("h1")}, rd("B"), [][]cacheCall{{rm("h1", "B")}, {sv("h1")}}, []string{"h1"}},
+		{[]cacheCall{sv("h1")}, rd("A"), [][]cacheCall{{rm("h1", "B")}, {sv("h1")}}, []string{"h1"}},
+		{[]cacheCall{sv("h1"), sv("h2")}, rd("A"), [][]cacheCall{{rm("h2", "A"), sv("h2")}, {rm("h1", "B")}}, []string{"h2"}},
+		{[]cacheCall{sv("h1")}, rd("B"), [][]cacheCall{{rm("h1", "B"), sv("h1")}, {sv("h5")}}, []string{"h1", "h5"}},
+		{[]cacheCall{sv("h3")}, rd("A"), [][]cacheCall{{rm("h3", "A")}, {sv("h3"), sv("h4")}}, []string{"h3", "h4"}},
+		{[]cacheCall{sv("h1")}, rd("B"), [][]cacheCall{{sv("h5")}, {rm("h5", "B"), rm("h1", "B")}}, []string{}},
+	}
+	for _, sc := range scases {
+		w := newCacheWorld(enc, cacheAddrs, cachePairs)
+		w.gatedSeq(sc.pre, sc.c1, sc.stages, sc.expect)
 		total += w.events
 	}
 	// (iii) free-running: every goroutine owns its hashes (saves them, removes some), addresses are shared
